@@ -98,7 +98,7 @@ func Start(prop, level string) *Run {
 		sets:       map[string]map[string]struct{}{},
 		knownHits:  map[string]int{},
 		extra:      map[string]any{},
-		maxSamples: 6,
+		maxSamples: 10,
 	}
 	if r.Tier != "quick" && r.Tier != "thorough" {
 		r.Tier = "quick"
